@@ -66,7 +66,7 @@ def arith(op, a, b):
         ps = [tdiv(a[0], b[0]), tdiv(a[0], b[1]), tdiv(a[1], b[0]), tdiv(a[1], b[1])]
         return (min(ps), max(ps))
     if op == "Rem":
-        if a[0] >= 0 and b[0] > 0:
+        if a[0] >= 0 and b[0] >= 0 and b[1] > 0:      # unsigned: a zero divisor panics separately; x % d <= d - 1
             return (0, min(a[1], b[1] - 1))
         if b[0] > 0:
             return (-(b[1] - 1), b[1] - 1)
